@@ -360,6 +360,12 @@ Record obs := mkObs {
 
 Inductive outcome := Stuck | Done (o : obs).
 
+(* the stream the input name selects: "-" is stdin *)
+Definition input_of (w : world) (name : str) : in_result :=
+  if str_eqb name s_dash
+  then match w_stdin w with Some bs => InBytes bs | None => InReadErr end
+  else w_open_in w name.
+
 Definition tool_main (t : tool) (fl : flavour) (argv : list str) (w : world) : outcome :=
   match tool_parse t fl argv with
   | POutOfFuel => Stuck
@@ -368,10 +374,7 @@ Definition tool_main (t : tool) (fl : flavour) (argv : list str) (w : world) : o
     if (length argv' <=? i)%nat then Done (mkObs 0 SNone [] [MMissingArgs; MHelp t] None)
     else
       let name := nth i argv' [] in
-      let inp := if str_eqb name s_dash
-                 then match w_stdin w with Some bs => InBytes bs | None => InReadErr end
-                 else w_open_in w name in
-      match inp with
+      match input_of w name with
       | InOpenFail =>
           match t with
           | W2X => Done (mkObs 0 SNone [] [MFailedOpenIn name] None)
@@ -400,6 +403,22 @@ Definition tool_main (t : tool) (fl : flavour) (argv : list str) (w : world) : o
             else Done (mkObs (code mod 256) SNone [] [MFailed t code] (Some (lo, data)))
           end
       end
+  end.
+
+(* what the arguments ask for: None = usage text; Some (options, output name, input name) *)
+Definition request (t : tool) (fl : flavour) (argv : list str) : option (lib_opts * option str * str) :=
+  match tool_parse t fl argv with
+  | PArgs (lo, out) argv' i => if (length argv' <=? i)%nat then None else Some (lo, out, nth i argv' [])
+  | _ => None
+  end.
+
+(* where the bytes must go, given the requested output name, the library's answer and fopen's answer *)
+Definition sink_spec (w : world) (out : option str) (code : N) (outb : list N) : sink :=
+  match out with
+  | None => SNone
+  | Some n => if negb (code =? 0) then SNone
+              else if str_eqb n s_dash then SStdout outb
+              else if w_open_out w n then SFile n outb else SNone
   end.
 
 (* ------------------------------------------------------------------ *)
